@@ -18,10 +18,13 @@ import FitProps.C07Str
   its Go type, every container field holding messages of its element type, the container the one the
   file type selects (`decoded_file_typed`; FitProofs/Typed*.lean) — and `Encode` cannot panic on a
   well-typed File (`encode_no_panic`).  That Encode can *fail* on such a File is the known finding
-  D13, a counterexample theorem here.  The remaining clauses (the output passes CheckIntegrity and
-  decodes to the same content; the second round trip is a fixpoint) are checked on every run over all
-  accepted inputs by the correspondence and the generation-1/2/3 oracle; C05/C06 prove them for Files
-  in `fileRTB`.
+  D13, a counterexample theorem here — and the only way it can: **`reencode_ok_unless_strings`**
+  (if every string of the decoded File re-encodes at its field's length, `Encode` returns bytes;
+  FitProps/C07Str.lean).  **`reencode_passes_integrity`**: whatever `Encode` writes for a decoded File
+  passes `CheckIntegrity` (the typing invariant carries the header `decodeHeader` accepted;
+  `CheckIntegrity` accepts every frame, FitProofs/IntegFrame.lean).  That the bytes decode to the same
+  content is proved for Files in `fileRTB` (C05/C06) and otherwise checked on every run over all
+  accepted inputs by the correspondence and the generation-1/2/3 oracle.
 
   **`second_trip_fixpoint`** proves the last clause on that domain: for a File in `fileRTB` (C06)
   of the typed shape whose messages have no component fields, the File `F1` that `Decode` returns
@@ -29,7 +32,9 @@ import FitProps.C07Str
   accepts it, it decodes to the same file_id, file_creator, timestamp_correlation and, slot by
   slot, the same messages (FitProps/C07Fix.lean: `fileRTB_wire`, the domain is closed under the
   trip; FitProofs/Fixpoint.lean: `wireMsg_idem`, padding to the profile length is idempotent, and a
-  field no message of a slice carries is still such a field afterwards).
+  field no message of a slice carries is still such a field afterwards); **`second_trip_total`**
+  derives the second `Encode`'s success as well (FitProps/C07Ok.lean: no value of the domain is
+  refused by `writeField`).
 -/
 namespace Fit.Props.C07
 open Fit
